@@ -13,7 +13,7 @@ RULE = ("Jalali years 1200..1500: every month and every valid day (incl. Esfand 
         "suffix), HH:MM, HH:MM:SS in Persian digits and the 'saat HH va MM daghighe' clock. Hijri 1343..1500 (quick every 9th "
         "year): YYYY/MM/DD, YYYY-MM-DD, DD-MM-YYYY for DD>12, with HH:MM sabahan/masa'an. Oracle: direct calls to "
         "convertdate.persian.to_gregorian / hijridate.Hijri.to_gregorian, themselves self-checked (consecutive days map to "
-        "consecutive Gregorian days; Jalali year lengths 365/366, Hijri months 29/30 days and years 353..356 days). non-trivial distinct = distinct (calendar, spelling, "
+        "consecutive Gregorian days; Jalali year lengths 365/366, Hijri months 28..31 days (hijridate's table has 8 irregular months in 1343-1364) and years 353..356 days). non-trivial distinct = distinct (calendar, spelling, "
         "date).")
 ASSUMPTIONS = ["convertdate / hijridate are the reference conversions (outside the parser path)",
                "convertdate.persian.equinox_jd (pure function of the year) is memoised by the harness; an un-memoised sample must agree",
@@ -144,11 +144,22 @@ def run_hijri(ctx, desc):
         ylen = 0
         for m in range(1, 13):
             ml = Hijri(y, m, 1).month_length()
-            if ml not in (28, 29, 30):  # 1343 (first tabulated year) has one 28-day month in hijridate
+            if ml not in (28, 29, 30, 31):  # hijridate's Umm al-Qura table has a few 28- and 31-day months (1343-1364)
                 ctx.inconclusive.append("reference Hijri month %d/%d has %d days" % (y, m, ml))
                 return
             for d in range(1, ml + 1):
                 g = datetime(*Hijri(y, m, d).to_gregorian().datetuple())
+                if d > 30:
+                    # a Hijri month has 29 or 30 days; hijridate's table lists three 31-day months (1345/5, 1348/11,
+                    # 1349/11).  Their 31st day is an artefact of the reference table, not a "valid Hijri date"
+                    # in the statement's sense: advance the self-check but do not assert it.
+                    ctx.count("hijri_day31_of_reference_table_skipped")
+                    if prev is not None and g - prev != timedelta(days=1):
+                        ctx.inconclusive.append("reference converter not monotone at Hijri %d/%d/%d" % (y, m, d))
+                        return
+                    prev = g
+                    ylen += 1
+                    continue
                 if prev is not None and g - prev != timedelta(days=1):
                     ctx.inconclusive.append("reference converter not monotone at Hijri %d/%d/%d" % (y, m, d))
                     return
